@@ -12,6 +12,8 @@ import tempfile
 
 HERE = os.path.dirname(os.path.dirname(os.path.abspath(__file__)))
 SEEDROOT = sys.argv[1] if len(sys.argv) > 1 else '/tmp/seedout'
+BENIGN = '--benign' in sys.argv        # behaviour-preserving changes: the demonstration has to pass with and without the change
+OUT = sys.argv[sys.argv.index('--out') + 1] if '--out' in sys.argv else os.path.join(HERE, 'tools', 'seed_verification.json')
 PYTEST = ['/venv/bin/python', '-m', 'pytest', '-q', '-p', 'no:cacheprovider', '--timeout=900', '--continue-on-collection-errors', '-x', '--no-header', '-rf']
 
 
@@ -49,7 +51,7 @@ def one(args):
         imp = subprocess.run(['/venv/bin/python', '-c', 'import traffic_weaver'], env=dict(os.environ, PYTHONPATH=os.path.join(tree, 'src')), capture_output=True, text=True)
         fails, summary = failing(tree)
         rc_mut, out_mut = run_demo(tree, demo)
-        ok = imp.returncode == 0 and fails == baseline and rc_clean == 0 and rc_mut not in (0, -9)
+        ok = imp.returncode == 0 and fails == baseline and rc_clean == 0 and ((rc_mut == 0) if BENIGN else (rc_mut not in (0, -9)))
         return sid, {'ok': ok, 'imports': imp.returncode == 0, 'suite_same_as_baseline': fails == baseline, 'suite_summary': summary,
                      'new_failures': sorted(set(fails) - set(baseline)), 'demo_clean_rc': rc_clean, 'demo_changed_rc': rc_mut, 'demo_changed_tail': out_mut[-300:]}
     finally:
@@ -74,7 +76,7 @@ def main():
         for sid, r in ex.map(one, work):
             res[sid] = r
             print(sid, 'OK' if r['ok'] else 'REJECT', {k: v for k, v in r.items() if k not in ('demo_changed_tail',)})
-    json.dump({'baseline': baseline, 'results': res}, open(os.path.join(HERE, 'tools', 'seed_verification.json'), 'w'), indent=1)
+    json.dump({'baseline': baseline, 'results': res}, open(OUT, 'w'), indent=1)
 
 
 if __name__ == '__main__':
